@@ -19,6 +19,14 @@ def model(pattern, name=None):
     return deco
 
 
+@model(r'^<.* as Fn(Once|Mut)?<\(.*\)>>::call(_once|_mut)?$')
+def m_fn_call(ctx, args, callee):
+    """`f(x)` on a closure / fn item held in a local: the arguments arrive as one tuple"""
+    from .core import Agg
+    tup = args[1]
+    return ctx.call_closure(args[0], list(tup.f) if isinstance(tup, Agg) else [tup])
+
+
 # =========================================================================== strings
 class Str:
     """text value. kinds: concrete python str | TableSym (symbolic index into a table of concrete strings)
